@@ -336,6 +336,13 @@ func (se *SpecEnv) binary(e SBinary, hint types.Type) Val {
 		return Val{T: x.T, L: []string{shiftTerm(op, x.L[0], intWidth(x.T), isSigned(x.T), y.L[0], intWidth(y.T))}}
 	}
 	x, y := se.evalPair(e.X, e.Y, hint)
+	if e.Op == "+" && isString(x.T) && isString(y.T) {
+		g := se.guard
+		if g == "" || se.qdepth > 0 {
+			g = "true"
+		}
+		return f.binop(g, token.ADD, x, y, x.T, token.NoPos)
+	}
 	if !isInteger(x.T) || !isInteger(y.T) {
 		if isBool(x.T) && (e.Op == "&" || e.Op == "|") {
 			if e.Op == "&" {
